@@ -25,7 +25,7 @@ from vt import nsio
 ID = 'C12'
 META = {
     'level_text': (
-        'Proof (Coq, 35 statements): perm_invariant_<op> theorems for ALL sequences satisfying the named distinctness '
+        'Proof (Coq, 31 statements): perm_invariant_<op> theorems for ALL sequences satisfying the named distinctness '
         'hypotheses and ALL permutations of each repeated field, about the Gallina models the other checks tie to '
         'the code; plus the property statement itself evaluated on the real implementation for every operation the '
         'property lists (original vs permuted storage order, canonical multiset outputs compared), plus the same '
